@@ -61,8 +61,9 @@ def CeltArgsOk (a : CeltArgs) : Prop :=
 structure OracleOk (o : Oracle) : Prop where
   silk : ∀ k a, SilkArgsOk a → (o.silk k a).1 = 0 ∧ (o.silk k a).2.1 = silkSamples a ∧ (a.lostFlag ≠ 1 → 1 ≤ (o.silk k a).2.2)
   celt : ∀ k a, CeltArgsOk a → o.celt k a = a.frame_size
-  bit : ∀ k logp tell, ((o.bit k logp tell).1 = 0 ∨ (o.bit k logp tell).1 = 1) ∧ tell ≤ (o.bit k logp tell).2 ∧ (o.bit k logp tell).2 ≤ tell + logp
-  uint : ∀ k ft tell, 0 ≤ (o.uint k ft tell).1 ∧ (o.uint k ft tell).1 < ft ∧ tell ≤ (o.uint k ft tell).2
+  bit : ∀ k logp tell, 0 ≤ logp →
+    ((o.bit k logp tell).1 = 0 ∨ (o.bit k logp tell).1 = 1) ∧ tell ≤ (o.bit k logp tell).2 ∧ (o.bit k logp tell).2 ≤ tell + logp
+  uint : ∀ k ft tell, 0 < ft → 0 ≤ (o.uint k ft tell).1 ∧ (o.uint k ft tell).1 < ft ∧ tell ≤ (o.uint k ft tell).2
 
 /-- `n` samples at `p` lie inside the buffer `p` points into. -/
 def Ptr.room (p : Ptr) (n : Int) : Prop := 0 ≤ p.off ∧ 0 ≤ n ∧ p.off + n ≤ p.cap
@@ -94,15 +95,49 @@ def Ev.ptr? : Ev → Option Ptr
   | .clip p _ _ => some p
   | _ => none
 
-/-- All logged events are well-formed. -/
-def LogOk (r : Run) : Prop := ∀ e ∈ r.log, EvOk e
+/-- One logged event is well-formed AND the pointer it carries names the true capacity of the buffer
+    it points into (`st0` fixes Fs/channels, i.e. the scratch-buffer sizes; `cap0` is the size of the
+    caller's buffer in samples). -/
+def EvGood (st0 : DecState) (cap0 : Int) (e : Ev) : Prop :=
+  EvOk e ∧ ∀ p, e.ptr? = some p → PtrCapOk st0 cap0 p
 
-/-- Every pointer in the log carries the true capacity of its buffer. -/
-def LogCaps (cap0 : Int) (r : Run) : Prop := ∀ e ∈ r.log, ∀ p, e.ptr? = some p → PtrCapOk r.st cap0 p
+/-- The PCM extent an event touches: pointer and number of samples from it. -/
+def Ev.extent? : Ev → Option (Ptr × Int)
+  | .silk a p _ n => some (p, n * a.nChannelsAPI)
+  | .celt a p _ => some (p, a.frame_size * a.channels)
+  | .acc _ p n => some (p, n)
+  | .clip p n ch => some (p, n * ch)
+  | _ => none
+
+/-- All logged events are well-formed (legal oracle arguments, extents inside the right buffers). -/
+def LogGood (st0 : DecState) (cap0 : Int) (r : Run) : Prop := ∀ e ∈ r.log, EvGood st0 cap0 e
 
 /-- The documented results of a decode call with room for `frame_size` samples per channel. -/
 def RetOk (frame_size : Int) (v : Int) : Prop :=
   v = BAD_ARG ∨ v = BUFFER_TOO_SMALL ∨ v = INVALID_PACKET ∨ (0 < v ∧ v ≤ frame_size)
+
+/-- What a concealment request returns (`opus_decode_native` with no packet, or the FEC paths):
+    the requested duration, or `OPUS_BUFFER_TOO_SMALL` when it is shorter than 2.5 ms. -/
+def plcRet (st : DecState) (frame_size : Int) : Int :=
+  if frame_size < st.Fs / 400 then BUFFER_TOO_SMALL else frame_size
+
+/-- The return value of `opus_decode_native` as a function of the arguments, the sampling rate and
+    nothing else: it depends neither on the decoder history nor on anything the DSP does.
+    (`OpusProofs.DecSkelNative.decodeNative_spec` proves that this is what the skeleton returns.) -/
+def nativeRet (st : DecState) (data : Option Bytes) (len frame_size fec : Int) (sd : Bool) : Int :=
+  if fec < 0 ∨ fec > 1 then BAD_ARG
+  else if (fec ≠ 0 ∨ len = 0 ∨ data.isNone) ∧ cmod frame_size (st.Fs / 400) ≠ 0 then BAD_ARG
+  else if len = 0 ∨ data.isNone then plcRet st frame_size
+  else if len < 0 then BAD_ARG
+  else
+    match Framing.parseImpl sd ((data.getD []).take len.toNat) with
+    | .ok p =>
+      if fec ≠ 0 then plcRet st frame_size
+      else if (p.count : Int) * (Framing.samplesPerFrame (((data.getD []).take len.toNat).headD 0) st.Fs.toNat : Int) > frame_size then
+        BUFFER_TOO_SMALL
+      else (p.count : Int) * (Framing.samplesPerFrame (((data.getD []).take len.toNat).headD 0) st.Fs.toNat : Int)
+    | .err e => e.code
+    | _ => INVALID_PACKET
 
 /-- One call of a history on the same decoder state. -/
 inductive Call where
@@ -110,6 +145,12 @@ inductive Call where
   | native (data : Option Bytes) (len frame_size fec : Int) (sd soft_clip : Bool)
   | reset
   | gain (v : Int)
+
+/-- The packet bytes of a call are bytes (`< 256`). -/
+def Call.WF : Call → Prop
+  | .decode _ data _ _ _ => ∀ bs, data = some bs → BytesOk bs
+  | .native data _ _ _ _ _ => ∀ bs, data = some bs → BytesOk bs
+  | _ => True
 
 /-- The decoder state after one call, for a given oracle. -/
 def stepCall (o : Oracle) (st : DecState) : Call → DecState
